@@ -87,6 +87,7 @@ inductive Op where
   | sigmd5 (s : Nat)
   | sigadd (s : Nat) (bytes : List Nat) (force : Bool)
   | sigcopy (r s : Nat)
+  | addseq (h : Nat) (bytes : List Nat) (force : Bool)   -- `mh.add_sequence(seq, force)` / k-mer by k-mer `add_kmer`
 deriving Repr, DecidableEq
 
 /-- a typed observation -/
@@ -282,6 +283,14 @@ def exec (st : St) : Op → St × Ans
     match get st (sigSlot s) with
     | some cell => showSig (put (put st (sigSlot s) cell.clone.1) (sigSlot r) cell.clone.2) r
     | none => (st, .bad)
+  | .addseq h bytes force =>
+    -- `MinHash.add_sequence` on a plain sketch: the same native walk as `sig.add_sequence`
+    match get st h with
+    | some s =>
+      let (hs, raised) := sigHashes s bytes force
+      let st' := put st h (s.addMany hs)                   -- hashes offered before an error stay in the sketch
+      if raised then (st', .errValue) else (st', .mh (s.addMany hs))
+    | none => (st, .bad)
 
 /-! ### the text of a line -/
 
@@ -297,6 +306,10 @@ def parse (line : String) : Option Op :=
     let f ← bool? force
     pure (.sigadd s (seq.toList.map Char.toNat) f)
   | ["sigcopy", r, s] => do pure (.sigcopy (← nat? r) (← nat? s))
+  | ["addseq", h, seq, force] => do
+    let h ← nat? h
+    let f ← bool? force
+    pure (.addseq h (seq.toList.map Char.toNat) f)
   | ["new", r, num, scaled, track, ksize, seed] => do
     pure (.new (← nat? r) (← nat? num) (← nat? scaled) (← bool? track) (← nat? ksize) (← nat? seed))
   | ["newmh", r, num, maxhash, track, ksize, seed] => do
